@@ -453,6 +453,29 @@ func (c *Ctx) minLenAt(n ast.Node, base string, stop ast.Node) int64 {
 				if s == child || s.Pos() >= child.Pos() {
 					break
 				}
+				// a preceding statement that indexed base[k] unconditionally succeeded, so len(base) > k
+				if !c.assignedBefore(x, base, n) {
+					switch s.(type) {
+					case *ast.AssignStmt, *ast.ExprStmt, *ast.DeclStmt:
+						ast.Inspect(s, func(q ast.Node) bool {
+							switch y := q.(type) {
+							case *ast.FuncLit, *ast.IfStmt, *ast.ForStmt, *ast.RangeStmt, *ast.SwitchStmt:
+								return false
+							case *ast.BinaryExpr:
+								if y.Op == token.LAND || y.Op == token.LOR {
+									return false // short-circuit operands are conditional
+								}
+							case *ast.IndexExpr:
+								if nosp(c.Src(y.X)) == nosp(base) {
+									if k, ok := c.ConstInt(y.Index); ok && k >= 0 {
+										upd(k + 1)
+									}
+								}
+							}
+							return true
+						})
+					}
+				}
 				if ifs, ok := s.(*ast.IfStmt); ok && ifs.Else == nil && terminating(ifs.Body) && len(conjuncts(ifs.Cond)) == 1 {
 					_, f := c.lenBound(ifs.Cond, base)
 					upd(f)
